@@ -132,7 +132,7 @@ inline bool merge_ctx(FILE *f){ Ctx &c=C(); uint64_t v,n; std::string s,t,u;
 	if(!rd(f,n)) return false; for(uint64_t i=0;i<n;i++){ if(!rd(f,v)) return false; c.distinct.insert(v);}
 	if(!rd(f,n)) return false; for(uint64_t i=0;i<n;i++){ rd(f,s); rd(f,v); c.guards[s]+=v; }
 	if(!rd(f,n)) return false; for(uint64_t i=0;i<n;i++){ rd(f,s); if(c.samples.size()<6) c.samples.push_back(s); }
-	if(!rd(f,n)) return false; for(uint64_t i=0;i<n;i++){ rd(f,s); rd(f,t); rd(f,u); violation(s,t,u); }
+	if(!rd(f,n)) return false; for(uint64_t i=0;i<n;i++){ rd(f,s); rd(f,t); rd(f,u); /* several shards may report the same class: keep the smallest counterexample */ std::map<std::string,Violation>::iterator o=c.viol.find(s); if(o!=c.viol.end()&&u.size()<o->second.replay.size()){ o->second.what=t; o->second.replay=u; } else violation(s,t,u); }
 	if(!rd(f,n)) return false; for(uint64_t i=0;i<n;i++){ rd(f,s); assume(s); }
 	if(!rd(f,v)||v!=0xC0FFEEull) return false; return true; }
 
@@ -248,8 +248,11 @@ inline int finish(){
 	printf("%s %s: evaluations=%llu distinct=%zu states=%llu transitions=%llu violations=%zu exhaustive=%d wall=%.1fs\n",c.prop.c_str(),c.tier.c_str(),(unsigned long long)c.evaluations,c.distinct.size(),(unsigned long long)c.states,(unsigned long long)c.transitions,c.viol.size(),(int)c.exhaustive,wall);
 	for(auto &g:c.guards) printf("  guard %s=%llu\n",g.first.c_str(),(unsigned long long)g.second);
 	cleanup_scratch();
+	// an unlisted violation decides the exit code: a shard that died on a violating case also starves the vacuity guards,
+	// which must not turn "exit 1 + VIOLATION" into "exit 2"
+	if(unlisted) return 1;
 	if(c.harness_error){ printf("HARNESS-ERROR property=%s (see stderr)\n",c.prop.c_str()); return 2; }
-	return unlisted?1:0;
+	return 0;
 }
 // vacuity guard: a required guard counter that stayed 0 is a harness error
 inline void require_guard(const char *name){ if(C().guards[name]==0){ fprintf(stderr,"harness error: vacuity guard '%s' is 0\n",name); C().harness_error=true; } }
